@@ -143,7 +143,7 @@ PROPS['C12'] = dict(
            "(probe = try_unwrap and finalize_again on a unique program-held Cc); objects die by plain drop, by an explicit collection or by a collection "
            "triggered by Cc::new; is_tracing() sampled in every callback",
     outside=OUTSIDE_COMMON,
-    runs=both('h_nest_n2', covers=[1, 3]) + [R('h_fin_n2', covers=[1, 2]), R('h_nest_n2', 'faw', covers=[1]), R('h_panic_n3', covers=[1]), R('h_nest_n2_full', tiers=T, covers=[1, 3])]
+    runs=[R('h_nest_n2', covers=[1, 3]), R('h_nest_n2', 'fa', 'release', T, covers=[1, 3])] + [R('h_fin_n2', covers=[1, 2]), R('h_nest_n2', 'faw', covers=[1]), R('h_panic_n3', covers=[1]), R('h_nest_n2_full', tiers=T, covers=[1, 3])]
          + twin('h_nest_twin'),
 )
 PROPS['C13'] = dict(
